@@ -2,6 +2,7 @@
 From Coq Require Import List Arith NArith Bool.
 From AV Require Import Base.ITree Model.D00 Model.D01.
 From AV Require Import Model.D18.
+From AV Require Import Model.D16.
 Import ListNotations.
 
 Definition dispatch (prop op : nat) (t : itree) : itree :=
@@ -9,5 +10,6 @@ Definition dispatch (prop op : nat) (t : itree) : itree :=
   | 0 => d00 op t               (* op 0 = echo / self-test; shared comparators *)
   | 1 => d01 op t
   | 18 => d18 op t
+  | 16 => d16 op t
   | _ => bad_input
   end.
